@@ -1155,6 +1155,78 @@ fn field_type_list(input: Span) -> IResult<Span, Vec<FieldType>> {
     )(input)
 }
 
+/// Cheap necessary condition for an unnamed partial type `(field: type, ...)`: the bracket that
+/// opens at the start of `text` is empty (only whitespace, comments and commas) or has a `:` at
+/// its own nesting level (every named field does: `name: type`). Linear in the bracket's length.
+fn bracket_may_be_partial(text: &str) -> bool {
+    let bytes = text.as_bytes();
+    let mut depth = 0usize;
+    let mut saw_content = false;
+    let mut i = 0;
+    while i < bytes.len() {
+        match bytes[i] {
+            b'/' if bytes.get(i + 1) == Some(&b'/') => {
+                // Comment: skip to the end of the line
+                while i < bytes.len() && bytes[i] != b'\n' && bytes[i] != b'\r' {
+                    i += 1;
+                }
+                continue;
+            }
+            b'(' | b'[' => {
+                if depth >= 1 {
+                    saw_content = true;
+                }
+                depth += 1;
+            }
+            b')' | b']' => {
+                depth = depth.saturating_sub(1);
+                if depth == 0 {
+                    return !saw_content;
+                }
+            }
+            b':' if depth == 1 => return true,
+            b',' => {}
+            c if depth == 1 && !c.is_ascii_whitespace() => saw_content = true,
+            _ => {}
+        }
+        i += 1;
+    }
+    false
+}
+
+/// Unnamed partial type `(field: type, ...)`: empty, or with at least one named field (which is
+/// what distinguishes it from grouping parentheses).
+fn unnamed_partial_type(input: Span) -> IResult<Span, TupleType> {
+    // A bracket that is neither empty nor has a `:` at its own nesting level cannot pass the
+    // check below, so don't parse its whole contents just to throw them away: the grouping
+    // alternative parses them again, and with every level of nested parentheses doing the same
+    // the time doubled per level.
+    if !bracket_may_be_partial(input.fragment()) {
+        return Err(nom::Err::Error(nom::error::Error::new(
+            input,
+            nom::error::ErrorKind::Verify,
+        )));
+    }
+    verify(
+        map(
+            delimited(pair(char('('), wsc), field_type_list, pair(wsc, char(')'))),
+            |fields| TupleType {
+                name: None,
+                fields,
+                is_partial: true,
+            },
+        ),
+        |tuple_type: &TupleType| {
+            // Empty partial types are allowed, or at least one field must be named
+            tuple_type.fields.is_empty()
+                || tuple_type
+                    .fields
+                    .iter()
+                    .any(|f| matches!(f, FieldType::Field { name: Some(_), .. }))
+        },
+    )(input)
+}
+
 fn partial_type(input: Span) -> IResult<Span, Type> {
     map(
         alt((
@@ -1172,24 +1244,7 @@ fn partial_type(input: Span) -> IResult<Span, Type> {
             ),
             // Unnamed partial: (field: type, ...)
             // Need to verify it's empty OR contains at least one named field to distinguish from grouping
-            verify(
-                map(
-                    delimited(pair(char('('), wsc), field_type_list, pair(wsc, char(')'))),
-                    |fields| TupleType {
-                        name: None,
-                        fields,
-                        is_partial: true,
-                    },
-                ),
-                |tuple_type: &TupleType| {
-                    // Empty partial types are allowed, or at least one field must be named
-                    tuple_type.fields.is_empty()
-                        || tuple_type
-                            .fields
-                            .iter()
-                            .any(|f| matches!(f, FieldType::Field { name: Some(_), .. }))
-                },
-            ),
+            unnamed_partial_type,
         )),
         Type::Tuple,
     )(input)
